@@ -208,7 +208,7 @@ func replayDist(in dseqInput) map[string]any {
 			// may block if the code disagrees with the spec: judged at quiescence, never by time
 			hold, release := context.WithCancel(ctx)
 			o := rt.Start(k, func() any { return w.do(hold, st.Op, st.View, st.Arg) })
-			if _, err := rt.Quiesce(); err != nil {
+			if _, err := quiesce(); err != nil {
 				release()
 				return map[string]any{"n": in.N, "ok": true, "inconclusive": "no quiescence"}
 			}
@@ -256,6 +256,10 @@ func recordDist(n int, seed int64) {
 	viewNames := []string{"raw", "in", "out", "both", "in2", "out2"}
 	vals := []string{"a", "a", "x", "y"}
 	for i := 0; i < n; i++ {
+		if inconclusiveSeen >= maxInconclusive/2 {
+			rt.Emit(map[string]any{"inconclusive": "skipped: too many runs without a quiescent point"})
+			continue
+		}
 		runtime.GOMAXPROCS(1 + rng.Intn(8))
 		su := setups[rng.Intn(len(setups))]
 		w, err := newDistWorld(su.kind, su.trk, 0, su.hard, rng.Intn(12))
@@ -330,7 +334,7 @@ func recordDist(n int, seed int64) {
 		}
 		close(start)
 		quiet := func() bool {
-			if _, err := rt.Quiesce(); err != nil {
+			if _, err := quiesce(); err != nil {
 				return false
 			}
 			pend := map[int]bool{}
@@ -378,6 +382,7 @@ func recordDist(n int, seed int64) {
 		if ok {
 			rt.Emit(map[string]any{"hist": append(hist, rec.Events()...)})
 		} else {
+			inconclusiveSeen++
 			rt.Emit(map[string]any{"inconclusive": "no quiescence"})
 		}
 	}
